@@ -775,7 +775,10 @@ impl<T: Transport + 'static> SyncEngine<T> {
             // A destination link that could not be replaced by the directory the source has
             // there (its task failed) is still a link: nothing is written below it, the path
             // would lead through the link, possibly into the source tree itself.
-            if !self.dry_run && task_index >= deletions_first {
+            if !self.dry_run
+                && task_index >= deletions_first
+                && !matches!(task.action, SyncAction::Skip)
+            {
                 let unreplaced = replaced_links.iter().find(|link| {
                     task.dest_path != **link
                         && task.dest_path.starts_with(link)
@@ -791,8 +794,7 @@ impl<T: Transport + 'static> SyncEngine<T> {
                     let action = match task.action {
                         SyncAction::Create => "create",
                         SyncAction::Update => "update",
-                        SyncAction::Delete => "delete",
-                        SyncAction::Skip => "skip",
+                        _ => "delete",
                     };
                     stats.lock().unwrap().errors.push(SyncError {
                         path: task.dest_path.clone(),
